@@ -232,6 +232,7 @@ def run(tier, seed):
                 if not sg.get("untranslated") and al[2] in [o.get("name") for o in d["data"]] and d["out"].get("name") == al[3]:
                     for r in range(max(2, reps // 2)):
                         cases.append(make_case(rng, n, sg, d, big=(r % 6 == 5), alias=al))
+        cases = with_reg_alias(cases, st, every=3)
         cases += parcopy_cases(rng, tier)
         corr_campaign(res, h, drv, cases, fl)
     # parcpy / parSetZero must transfer exactly `size` elements also when the OpenMP runtime GRANTS fewer members than
